@@ -345,6 +345,17 @@ def build_models(interp):
     reg(np.greater_equal, _ew2(lambda a, b: sp.Ge(num(a), num(b))))
     reg(np.equal, _ew2(lambda a, b: sp.Eq(num(a), num(b))))
     reg(np.not_equal, _ew2(lambda a, b: sp.Ne(num(a), num(b))))
+    def m_arange(*a, **k):
+        """np.arange(N) for a symbolic length: the generic element is the (integer) index itself"""
+        if len(a) == 1 and isinstance(a[0], LenS) and a[0].dom is sp.true and len(a[0].axes) == 1:
+            ax = a[0].axes[0]
+            idx = sp.Symbol("idx_" + ax.name, integer=True, nonnegative=True)
+            ax.syms.add(idx)
+            interp.facts.append(sp.And(sp.Ge(idx, 0), sp.Le(idx, ax.n - 1), sp.Ge(ax.n, 1)))
+            return A((ax,), idx, sp.true)
+        raise Unsupported("np.arange with symbolic arguments %r" % (a,))
+
+    reg(np.arange, m_arange)
     reg(np.where, m_where)
     reg(np.zeros_like, _like(0))
     reg(np.ones_like, _like(1))
